@@ -346,7 +346,125 @@ def ddl_cases(chk):
             # quoted database names are not attachable in the fake (a C03 matter), so only unquoted ones here
             cases.append(("createDatabase", name + "_db", quoted, False, [], f"create database {name}_db"))
             cases.append(("createDatabase", name + "_db", quoted, True, [f"create database {name}_db"], f"create database if not exists {name}_db"))
-    return [{"ddlkind": k, "name": n, "quoted": qd, "noop": noop, "setup": setup, "sql": sql} for k, n, qd, noop, setup, sql in cases]
+    out = [{"ddlkind": k, "name": n, "quoted": qd, "noop": noop, "setup": setup, "sql": sql} for k, n, qd, noop, setup, sql in cases]
+    # IDENTIFIER('<text>') / IDENTIFIER($var) spellings of the object name (the literal's text is the `name`, never quoted)
+    for lit in ("orders", "Mixed_1", "UPPER", "s1.qualified", "db1.s1.deep"):
+        for form in ("literal", "variable"):
+            ident = f"identifier('{lit}')" if form == "literal" else "identifier($tn)"
+            pre = [] if form == "literal" else [f"set tn = '{lit}'"]
+            mk = lambda kind, setup, sql: out.append({"ddlkind": kind, "name": lit, "quoted": False, "noop": False, "setup": pre + setup, "sql": sql, "identifier": True})
+            mk("createTable", [], f"create table {ident} (a int)")
+            mk("createTable", [], f"create or replace table {ident} (a int)")
+            mk("createView", ["create table src0 (a int)"], f"create view {ident} as select * from src0")
+            mk("drop", [f"create table {ident} (a int)"], f"drop table {ident}")
+            mk("drop", ["create table src0 (a int)", f"create view {ident} as select * from src0"], f"drop view {ident}")
+            mk("alter", [f"create table {ident} (a int)"], f"alter table {ident} add column b int")
+            mk("truncate", [f"create table {ident} (a int)"], f"truncate table {ident}")
+        out.append({"ddlkind": "createSchema", "name": lit.split(".")[-1], "quoted": False, "noop": False, "setup": [], "sql": f"create schema identifier('{lit.split('.')[-1]}')", "identifier": True})
+    return out
+
+
+# ------------------------------------------------------------------------------------------------
+# DML with bound values: values are data, whatever they contain (session variable references, %, quotes ...)
+# ------------------------------------------------------------------------------------------------
+TRICKY = ["charged at $rate per unit", "$rate", "$RATE", "$rate$rate", "100% sure", "%s literally", "%(x)s", "it's", "a 'quoted' b", "back\\slash",
+          "semi;colon", "dollar $ alone", "$nope here", "line\nbreak", "-- comment", "/* c */", "$$", "plain", "", "select 1", "grant call"]
+PH = {"pyformat": "%s", "format": "%s", "qmark": "?", "named": None}
+
+
+def bound_cases(chk):
+    rnd = random.Random(chk.seed + 11)
+    out = []
+    for style in ("pyformat", "format", "qmark", "named"):
+        for var_set in (True, False):
+            vals = list(TRICKY)
+            rnd.shuffle(vals)
+            for chunk in (vals[:7], vals[7:14], vals[14:]):
+                ops = [["I", i, v] for i, v in enumerate(chunk)]
+                ops.append(["IM", [[100 + i, v] for i, v in enumerate(chunk[:3])]])
+                ops.append(["U", 0, chunk[1]])
+                ops.append(["D", chunk[2]])
+                ops.append(["U", 1, chunk[0]])
+                out.append({"style": style, "var_set": var_set, "ops": ops})
+    return out
+
+
+def _real_bound(case):
+    import fakesnow
+    import snowflake.connector
+    style = case["style"]
+    old = snowflake.connector.paramstyle
+    snowflake.connector.paramstyle = "pyformat" if style == "named" else style
+    try:
+        with fakesnow.patch():
+            conn = snowflake.connector.connect(database="db1", schema="s1")
+            cur = conn.cursor()
+            cur.execute("create table bt (id int, s varchar)")
+            if case["var_set"]:
+                cur.execute("set rate = 5")
+            ph = PH[style]
+            steps = []
+            for op in case["ops"]:
+                try:
+                    if op[0] == "I":
+                        if style == "named":
+                            cur.execute("insert into bt (id, s) values (%(i)s, %(s)s)", {"i": op[1], "s": op[2]})
+                        else:
+                            cur.execute(f"insert into bt (id, s) values ({ph}, {ph})", (op[1], op[2]))
+                    elif op[0] == "IM":
+                        if style == "named":
+                            for i, v in op[1]:
+                                cur.execute("insert into bt values (%(i)s, %(s)s)", {"i": i, "s": v})
+                        else:
+                            cur.executemany(f"insert into bt values ({ph}, {ph})", [tuple(r) for r in op[1]])
+                    elif op[0] == "U":
+                        if style == "named":
+                            cur.execute("update bt set s = %(s)s where id = %(i)s", {"i": op[1], "s": op[2]})
+                        else:
+                            cur.execute(f"update bt set s = {ph} where id = {ph}", (op[2], op[1]))
+                    else:
+                        if style == "named":
+                            cur.execute("delete from bt where s = %(s)s", {"s": op[1]})
+                        else:
+                            cur.execute(f"delete from bt where s = {ph}", (op[1],))
+                    st = {"rows": [list(r) for r in cur.fetchall()], "rc": cur.rowcount}
+                except Exception as e:
+                    st = {"err": f"{type(e).__name__}: {str(e)[:120]}"}
+                k = conn.cursor()
+                k.execute("select id, s from bt order by id, s")
+                st["table"] = [list(r) for r in k.fetchall()]
+                steps.append(st)
+            return steps
+    finally:
+        snowflake.connector.paramstyle = old
+
+
+def _check_bound(chk, case, real, reply):
+    chk.case(("bound", case["style"], case["var_set"], json.dumps(case["ops"])), nontrivial=True)
+    chk.count(f"bound:{case['style']}:{'rate-set' if case['var_set'] else 'rate-unset'}")
+    rcase = {"kind": "bound", **case}
+    table = []          # the oracle: bound values are data
+    for i, (op, st) in enumerate(zip(case["ops"], real)):
+        if op[0] == "I":
+            table.append([op[1], op[2]])
+            want = {"rows": [[1]], "rc": 1}
+        elif op[0] == "IM":
+            table += [list(r) for r in op[1]]
+            want = {"rows": [[1]], "rc": 1}      # executemany runs the statement once per row: the cursor shows the last one
+        elif op[0] == "U":
+            n = sum(1 for r in table if r[0] == op[1])
+            table = [[r[0], op[2]] if r[0] == op[1] else r for r in table]
+            want = {"rows": [[n, 0]], "rc": n}
+        else:
+            n = sum(1 for r in table if r[1] == op[1])
+            table = [r for r in table if r[1] != op[1]]
+            want = {"rows": [[n]], "rc": n}
+        want["table"] = sorted(table)
+        if st != want:
+            how = f"paramstyle {case['style']}" + (", after `set rate = 5`" if case["var_set"] else "")
+            chk.violation(f"bound-value DML ({how}) ops {case['ops'][:i + 1]}: after op #{i} the cursor/table show {st} but SQL semantics with the bound values as data require {want}",
+                          rcase, broken="C04_bound_values_untouched / C04_count (correspondence)")
+            return
 
 
 # ------------------------------------------------------------------------------------------------
@@ -495,7 +613,9 @@ def _worker(shard):
             for n, case in todo:
                 res[n] = _real_history(conn, conn_b, case)
     for n, (kind, case) in enumerate(shard):
-        if kind != "hist":
+        if kind == "bound":
+            res[n] = _real_bound(case)
+        elif kind != "hist":
             res[n] = _real_ddl(case)
     return [res[n] for n in range(len(shard))]
 
@@ -578,7 +698,7 @@ def _check_ddl(chk, case, real, reply):
     rcase = {"kind": "ddl", **case}
     spec, impl, key = dec_opt(reply["spec"]), reply["impl"], reply["finding"]
     chk.case(("ddl", case["sql"]), nontrivial=True)
-    chk.count(f"ddl:{case['ddlkind']}" + (":noop" if case["noop"] else ""))
+    chk.count(f"ddl:{case['ddlkind']}" + (":noop" if case["noop"] else "") + (":identifier()" if case.get("identifier") else ""))
     if "setup_failed" in real:
         raise common.Infra(f"DDL set-up failed for {case['sql']}: {real['setup_failed']}")
 
@@ -597,7 +717,7 @@ def _check_ddl(chk, case, real, reply):
     if got == want:
         return
     what = f"`{case['sql']}`" + (f" (after {case['setup']})" if case["setup"] else "") + f": cursor shows {got} but Snowflake's status is {want}"
-    if key != "-" and got_impl == impl:
+    if key != "-" and got_impl == impl:   # incl. C04/ddl-status-identifier-qualified
         chk.finding(key, what, rcase)
     else:
         chk.violation(what, rcase, broken="C04_ddl_status / C04_ddl_status_partial (correspondence with Fs.Dml.ddlStatus)")
@@ -608,6 +728,10 @@ def _lines(items):
     for kind, case in items:
         if kind == "hist":
             out.append("dml\trun\t" + case["tok"])
+        elif kind == "bound":
+            out.append("dml\tddlident\talter\t" + enc_str("x"))   # placeholder line: bound-value cases have a Python-side oracle (values are data)
+        elif case.get("identifier"):
+            out.append("\t".join(["dml", "ddlident", case["ddlkind"], enc_str(case["name"])]))
         else:
             out.append("\t".join(["dml", "ddl", case["ddlkind"], "1" if case["quoted"] else "0", enc_str(case["name"]), "1" if case["noop"] else "0"]))
     return out
@@ -628,6 +752,7 @@ def _cases(chk):
     for _ in range(nh):
         items.append(("hist", _mk_hist(rnd, *ghistory(rnd), mode=rnd.choice(["cursor", "script"]), nop=rnd.random() < 0.3)))
     items += [("ddl", c) for c in ddl_cases(chk)]
+    items += [("bound", c) for c in bound_cases(chk)]
     return items
 
 
@@ -638,7 +763,7 @@ def _from_replay(case):
         c["tok"] = tcase(c["tables"], c["stmts"])
     else:
         c = {k: v for k, v in case.items() if k != "kind"}
-    return (kind, c)
+    return (kind, c)   # kinds: hist, ddl, bound
 
 
 def _corpus():
@@ -658,7 +783,7 @@ def _evaluate(chk, items, reals, replies):
     for (kind, case), real, reply in zip(items, reals, replies):
         if "impl" not in reply:
             raise common.Infra(f"driver could not parse case: {reply.get('_raw')}: {case.get('tok', case.get('sql'))}")
-        (_check_history if kind == "hist" else _check_ddl)(chk, case, real, reply)
+        {"hist": _check_history, "bound": _check_bound}.get(kind, _check_ddl)(chk, case, real, reply)
 
 
 def run(chk) -> None:
